@@ -43,9 +43,13 @@ def plan(tier, ctx):
                         continue      # gzip CRC over 3 symbolic bytes: ~2 min/query, covered in C07 thorough
                     vecs = list(itertools.product(D.STATIC_LIT_CLASSES, repeat=n))
                     if quick:
-                        if wrap == 1 and oc not in (64, 7):
+                        if wrap == 1 and oc != 7:
                             continue
-                        if wrap == 3 and n >= 2 and oc in (9, 1):
+                        if wrap == 3 and oc not in (64, 8):
+                            continue
+                        if wrap == 3 and n == 3 and oc == 64:
+                            continue
+                        if wrap == 0 and n == 3 and oc == 9:
                             continue
                         k = (a * 7 + b * 3 + fl + oc) % len(vecs)
                         vecs = [vecs[k]] if n >= 2 else vecs
